@@ -114,6 +114,9 @@ func c04Monitor(run *ev.Run, spec world.Spec) hMonitor {
 			return
 		}
 		full := c01Replay{Spec: spec, History: append(append([]seqx.Event{}, hist...), o.Event)}
+		if strings.HasPrefix(o.Drift, "state:") {
+			run.Violation("C04 login-state-changed-behind-the-store-interface", o.Drift+" - the state/nonce/verifier a later exchange will use is no longer the one issued for the session", full)
+		}
 		// consumed login states: states of logins that completed before this check
 		consumed := map[string]bool{}
 		for _, tr := range w.IdP.TokenReqs {
